@@ -5,8 +5,11 @@ package checks
 import (
 	"encoding/json"
 	"fmt"
+	"path/filepath"
 	"strings"
 	"sync"
+	"sync/atomic"
+	"syscall"
 	"time"
 
 	"github.com/inbucket/inbucket/v3/pkg/vrt/vsched"
@@ -222,7 +225,124 @@ func c02LatestScenario(c *fw.Ctx, backend string) schedScenario {
 	return schedScenario{ID: id, Bound: fw.Pick(c, 2, 3), Run: run}
 }
 
+// c02FaultScenario: one environment fault inside a delivery over SMTP.  Mailbox u of a file store
+// holds one message; a second session has sent its envelope and now sends DATA, and the k-th
+// file-system call (create, open, remove, rename) the file store makes while that DATA command is
+// being served fails with EIO; the client then sends the same transaction again, fault-free.
+// Whatever the final reply to the first attempt was: 250 means the message is in the mailbox with
+// the bytes that were sent, anything else means the mailbox is as it was; the retry is
+// acknowledged and adds exactly one copy.  k runs past the last call (fault-free control).
+func c02FaultScenario(c *fw.Ctx, k int) schedScenario {
+	id := fmt.Sprintf("T5-file-delivery-fs-fault-%d-then-retry", k)
+	first := "Subject: first\r\n\r\nthe message that was there before\r\n"
+	second := "Subject: second\r\n\r\nthe message whose delivery meets the fault\r\n"
+	run := func(cfg vsched.Config) (res schedResult) {
+		var e *vsched.Exec
+		var mu sync.Mutex
+		var armed atomic.Bool
+		var calls atomic.Int64
+		fired := ""
+		ack1, ack2 := "", ""
+		var probs [][2]string
+		leaked := inBubble(c.T, func() {
+			var s *sys.Sys
+			e = vsched.Run(cfg, func() (func(), []vsched.Thread, func()) {
+				s = sys.New(sys.Spec{Store: sys.StoreSpec{Backend: "file"}, SMTP: sys.DefaultSMTP(), NoHub: true})
+				vsched.FSFault = func(op, path string) error {
+					if armed.Load() && calls.Add(1) == int64(k) {
+						fired = op + " " + filepath.Base(path)
+						if strings.HasSuffix(path, ".raw") {
+							fired = op + " <id>.raw"
+						}
+						return syscall.EIO
+					}
+					return nil
+				}
+				envelope := []string{"MAIL FROM:<s@o.test>", "RCPT TO:<u@x.test>"}
+				var d *sys.SMTPDriver
+				init := func() {
+					d0 := &sys.SMTPDriver{K: s.DialSMTP()}
+					d0.Greeting()
+					for _, l := range append([]string{"HELO first.test"}, envelope...) {
+						d0.Cmd(l)
+					}
+					d0.Data(first)
+					d0.Cmd("QUIT")
+					d0.K.Close()
+					d = &sys.SMTPDriver{K: s.DialSMTP()}
+					d.Greeting()
+					for _, l := range append([]string{"HELO second.test"}, envelope...) {
+						d.Cmd(l)
+					}
+				}
+				client := func() {
+					armed.Store(true)
+					_, fin := d.Data(second)
+					armed.Store(false)
+					a1 := fin.String()
+					for _, l := range envelope {
+						d.Cmd(l)
+					}
+					_, fin = d.Data(second)
+					mu.Lock()
+					ack1, ack2 = a1, fin.String()
+					mu.Unlock()
+					d.Cmd("QUIT")
+					d.K.Close()
+				}
+				cleanup := func() {
+					vsched.FSFault = nil
+					safely(func() {
+						mu.Lock()
+						defer mu.Unlock()
+						exp := func(subj, data string) sys.Expect {
+							return sys.Expect{Mailbox: "u", From: "s@o.test", To: []string{"u@x.test"}, Subject: subj, Data: data}
+						}
+						want := []sys.Expect{exp("first", first)}
+						if strings.HasPrefix(ack1, "250") {
+							want = append(want, exp("second", second))
+						}
+						if strings.HasPrefix(ack2, "250") {
+							want = append(want, exp("second", second))
+						}
+						for _, p := range s.CheckDelivery(model.NewStore(0, 0), want, "u") {
+							probs = append(probs, [2]string{"file|fs-fault|" + p[0], fmt.Sprintf("first attempt answered %q with a failing file-system call (%s), the retry %q: %s", ack1, fired, ack2, p[1])})
+						}
+					})
+					s.Close()
+				}
+				return init, []vsched.Thread{{Name: "client", F: client}}, cleanup
+			})
+		})
+		if leaked != "" && (e == nil || (len(e.Panics) == 0 && !e.Deadlock)) {
+			res.Infra = "bubble: " + leaked
+			return res
+		}
+		res.Exec = e
+		res.Probs = append(res.Probs, stdProbs(e)...)
+		what := "no fault: fewer calls"
+		if fired != "" {
+			what = "failed: " + fired
+		}
+		res.Outcome = fmt.Sprintf("first=%s retry=%s [%s]", clipQ(ack1), clipQ(ack2), what)
+		if len(res.Probs) > 0 {
+			return res
+		}
+		if !strings.HasPrefix(ack2, "250") {
+			res.Probs = append(res.Probs, [2]string{"file|fs-fault|retry-not-acknowledged", fmt.Sprintf("the retry after the fault (%s) was answered %q", fired, ack2)})
+		}
+		res.Probs = append(res.Probs, probs...)
+		return res
+	}
+	return schedScenario{ID: id, Bound: fw.Pick(c, 1, 2), Run: run}
+}
+
+const c02FaultCalls = 6
+
 func c02SchedRun(c *fw.Ctx) {
+	for k := 1; k <= c02FaultCalls; k++ {
+		c.Share(c02FaultCalls+6-k, func() { exploreSched(c, c02FaultScenario(c, k)) })
+	}
 	for _, be := range []string{"mem", "file"} {
 		c.Share(4, func() { exploreSched(c, c02LatestScenario(c, be)) })
 	}
@@ -244,6 +364,12 @@ func c02SchedReplay(c *fw.Ctx, raw json.RawMessage) {
 	for _, sp := range c02SchedSpecs() {
 		if sp.ID == cas.Scenario {
 			replaySched(c, c02SchedScenario(c, sp), raw)
+			return
+		}
+	}
+	for k := 1; k <= c02FaultCalls; k++ {
+		if sc := c02FaultScenario(c, k); sc.ID == cas.Scenario {
+			replaySched(c, sc, raw)
 			return
 		}
 	}
